@@ -201,6 +201,50 @@ func vc13Swallowed(s string) (class string, found bool) {
 	return "other", true
 }
 
+// vc13NestedSite: fmt swallowed a panic of a nested String/GoString call; call the printers of
+// the sub-expressions directly to learn the panic site (so it gets the same category as a
+// direct panic at that site).
+func vc13NestedSite(in any, verbose bool, depth int) string {
+	if depth > 64 {
+		return ""
+	}
+	var kids []any
+	switch v := in.(type) {
+	case *expr.Expression:
+		if v == nil {
+			return ""
+		}
+		kids = []any{v.Left, v.Right}
+	case []*expr.Expression:
+		for _, k := range v {
+			kids = append(kids, k)
+		}
+	case *expr.RangeBoundary:
+		if v == nil {
+			return ""
+		}
+		kids = []any{v.Min, v.Max}
+	default:
+		return ""
+	}
+	for _, k := range kids {
+		if site := vc13NestedSite(k, verbose, depth+1); site != "" {
+			return site
+		}
+	}
+	if e, ok := in.(*expr.Expression); ok {
+		site, _ := vc13Guard(func() {
+			if verbose {
+				_ = e.GoString()
+			} else {
+				_ = e.String()
+			}
+		})
+		return site
+	}
+	return ""
+}
+
 var vc13PG = driver.NewPostgresDriver()
 
 type vc13Stats struct {
@@ -229,31 +273,58 @@ func vc13After(how string, data []byte, e *expr.Expression, st *vc13Stats, fail 
 	st.validated++
 	pre := fmt.Sprintf("%s decoded it and expr.Validate accepted it, expected ", how)
 
+	// every stage is run; one message per input: the first stage that does not return normally
+	// names the category, the later ones are listed as further consequences of the same value.
+	type bad struct{ cat, msg string }
+	bads := []bad{}
 	var s string
+	direct := false
 	if site, txt := vc13Guard(func() { s = e.String() }); site != "" {
-		fail("panic-print-"+site, pre+"String() to return; it panicked: "+txt)
-	} else if cl, bad := vc13Swallowed(s); bad {
-		fail("panic-print-nested-"+cl, pre+"String() to return normally; a nested call panicked: "+s)
+		bads = append(bads, bad{"panic-print-" + site, "String() to return; it panicked: " + txt})
+		direct = true
+	} else if cl, swallowed := vc13Swallowed(s); swallowed {
+		if site := vc13NestedSite(e, false, 0); site != "" {
+			cl = site
+		} else {
+			cl = "nested-" + cl
+		}
+		bads = append(bads, bad{"panic-print-" + cl, "String() to return normally; a nested call panicked: " + s})
+		direct = true
 	}
 	if site, txt := vc13Guard(func() { s = e.GoString() }); site != "" {
-		fail("panic-print-"+site, pre+"%#v to return; it panicked: "+txt)
-	} else if cl, bad := vc13Swallowed(s); bad {
-		fail("panic-print-nested-"+cl, pre+"%#v to return normally; a nested call panicked: "+s)
+		bads = append(bads, bad{"panic-print-" + site, "%#v to return; it panicked: " + txt})
+		direct = true
+	} else if cl, swallowed := vc13Swallowed(s); swallowed {
+		if site := vc13NestedSite(e, true, 0); site != "" {
+			cl = site
+		} else {
+			cl = "nested-" + cl
+		}
+		bads = append(bads, bad{"panic-print-" + cl, "%#v to return normally; a nested call panicked: " + s})
+		direct = true
 	}
 	if site, txt := vc13Guard(func() { s = fmt.Sprintf("%#v|%v|%s", e, e, *e) }); site != "" {
-		fail("panic-print-"+site, pre+"fmt formatting to return; it panicked: "+txt)
-	} else if cl, bad := vc13Swallowed(s); bad {
-		fail("panic-print-nested-"+cl, pre+"fmt %#v/%v/%s to return normally; a nested call panicked: "+s)
+		bads = append(bads, bad{"panic-print-" + site, "fmt formatting to return; it panicked: " + txt})
+	} else if cl, swallowed := vc13Swallowed(s); swallowed && !direct {
+		bads = append(bads, bad{"panic-print-nested-" + cl, "fmt %#v/%v/%s to return normally; a nested call panicked: " + s})
 	}
 	if site, txt := vc13Guard(func() { _, _ = json.Marshal(e) }); site != "" {
-		fail("panic-encode-"+site, pre+"json.Marshal to return; it panicked: "+txt)
+		bads = append(bads, bad{"panic-encode-" + site, "json.Marshal to return; it panicked: " + txt})
 	}
 	if site, txt := vc13Guard(func() { _, _ = vc13PG.Render(e) }); site != "" {
-		fail("panic-render-"+site, pre+"Render to return a result or an error; it panicked: "+txt)
+		bads = append(bads, bad{"panic-render-" + site, "Render to return a result or an error; it panicked: " + txt})
 	}
 	if site, txt := vc13Guard(func() { _, _, _ = vc13PG.RenderParam(e) }); site != "" {
-		fail("panic-renderparam-"+site, pre+"RenderParam to return a result or an error; it panicked: "+txt)
+		bads = append(bads, bad{"panic-renderparam-" + site, "RenderParam to return a result or an error; it panicked: " + txt})
 	}
+	if len(bads) == 0 {
+		return
+	}
+	msg := pre + bads[0].msg
+	for _, b := range bads[1:] {
+		msg += "; also expected " + b.msg
+	}
+	fail(bads[0].cat, msg)
 }
 
 // vc13Check checks the whole statement on one byte sequence.
